@@ -278,6 +278,8 @@ class AquaCropModel:
 
         if initialize_model:
             self._initialize()
+            # a new run: the "process the outputs after this step" request of an earlier call is over
+            self.__steps_are_finished = False
 
         if till_termination:
             self.__start_model_execution = time.time()
